@@ -15,7 +15,8 @@ B. spec -> code: TLC enumerates every interleaving (PatchSection, UseLock = FALS
 C. code -> spec: free-running stress (8 threads, switch interval 1e-6, PDFs incl. failing ones and
    digit-font documents whose text depends on the patch): recorded get/set events validated by TLC; then
    residue (pypdf function identity) and per-document to_json digests against an isolated baseline
-   (one fresh process per document, run twice; unstable documents are left out).
+   (one fresh process per document; a document that ever differs is re-measured twice in isolation and
+   left out if its isolated result is not reproducible, e.g. xlsx "created" = now).
 D. histories: TLC enumerates all histories over the abstract document classes of Globals.tla
    (font x glyph-set, AES trigger, AES user, plain); each runs in a fresh process on generated documents;
    plus seeded orders over all fixtures (mixed formats, failing inputs).  Recorded Extract/Residue events
@@ -232,12 +233,13 @@ def run(ctx):
         base_out = [json.loads(f.result().stdout.strip().splitlines()[-1]) for f in f_base]
     lap("replay, stress and baseline workers")
     baseline = dict(zip(doc_ids, base_out))
+    dirty = [d for d, a in baseline.items() if not (a["cfg"] and a["tmp"] and a["fds"] and a["fns"])]
     for d, a in baseline.items():
-        if not (a["cfg"] and a["tmp"] and a["fds"] and a["fns"]):
+        if d in dirty[:MAX_REPORT]:
             v.violation(what=f"a single extraction in a fresh process leaves residue: document {d}: "
                              f"config unchanged={a['cfg']} temp root unchanged={a['tmp']} ({a.get('tmp_new')}) "
                              f"no new open files={a['fds']} ({a.get('fds_new')}) third-party functions "
-                             f"unchanged={a['fns']} ({a.get('fns_changed')})",
+                             f"unchanged={a['fns']} ({a.get('fns_changed')}); {len(dirty)} documents do",
                         case={"doc": d}, where="extractor of that format")
         if a["patches"] and docs[d]["cls"] == "plain":
             docs[d]["cls"] = "aesT"                             # a fixture that triggers the AES patch
@@ -483,7 +485,7 @@ def run(ctx):
               "observation of the shared variable through the module object's class (getattr/setattr); direct "
               "writes to module.__dict__ would be invisible",
               "blocking is observed through proxies of threading.Lock/RLock globals of the pdf extractor package; "
-              "other blocking mechanisms fall back to a 10 s timeout",
+              "other blocking mechanisms fall back to a timeout (30 s, then 3 s)",
               "result equality = sha256 of to_json() of all results (or exception class + message) against one "
               "fresh process per document (memory addresses in repr() masked); a document that ever differs is "
               "re-measured twice in isolation and left out if its isolated result is not reproducible",
